@@ -43,3 +43,5 @@ Definition op_names : list (str * opname) :=
   :: (lit "?:", OTernary) :: (lit "or", OOr) :: (lit "and", OAnd) :: (lit "map", OMap)
   :: (lit "filter", OFilter) :: (lit "reduce", OReduce) :: (lit "all", OAll) :: (lit "some", OSome)
   :: (lit "none", ONone) :: nil.
+
+Definition s_var : str := lit "var".
